@@ -618,9 +618,14 @@ def run(chk):
 
 
 def replay(path):
-    exe, err = core.build_harness(HARNESS, extra=HARNESS_EXTRA)
     ops = [l.rstrip("\n") for l in open(path) if not l.startswith("#") and l.strip()]
-    impl, mod, spec, faults = corr.evaluate(AREA, exe, ops, CASE_START)
+    if ops and ops[0].split(" ")[0] in OPT_CASE_START:         # a program of the option-storage stream
+        exe, err = core.build_harness(OPT_HARNESS)
+        start = OPT_CASE_START
+    else:
+        exe, err = core.build_harness(HARNESS, extra=HARNESS_EXTRA)
+        start = CASE_START
+    impl, mod, spec, faults = corr.evaluate(AREA, exe, ops, start)
     bad = corr.first_problem(ops, impl, mod, spec)
     for o, a, b, c in zip(ops, impl, mod, spec):
         print(o[:200]); print("  impl :", a[:300]); print("  model:", b[:300]); print("  spec :", c)
